@@ -15,6 +15,6 @@ CONFIG = {
                     "fairness: enabled goroutine steps are eventually taken and time advances (DESIGN.md §3)",
                     "gRPC broker liveness (GRPCBroker.timeoutWait/knock) is covered under C07/C08; this check is the net/rpc MuxBroker"],
     "timeout": {"quick": 600, "thorough": 3000},
-    "level_text": "Lean theorems over the MuxBroker transition system for ALL finite histories (unmatched dials, repeated dials to one id, accept timeouts, accepts at the expiry instant, any interleaving and timer order): the mutex is never held across a blocking operation (no_lock_wedge), no stream is ever leaked \u2014 each is in transit, delivered, closed, or parked with a live timeoutWait that will close it (no_stream_leaks), every waiting goroutine's next step is enabled once its timer is due (progress); witness theorems show each of the three structural facts is necessary (the former defects D5, D5b, D5c). Facts re-extracted each run; real brokers with real 5 s timers run the witness histories, seeded compositions and two hook-steered schedules, each followed by a fresh matched pair and a goroutine dump after Close. Also: Run survives streams that are closed before their id header (run_never_dies; fact headerErrorContinues; witness), and every waiting Accept / parked stream is due at most 5000 ms from now, its step enabled once due (due_within_window, holds_due_within_five_seconds). Fifth round: a dial abandoned after 0.6 s followed by a late accept while the knock is still parked (C09.mux kind=dial-abandoned-then-late-accept; knocksExpire now includes the dialler's full-window wait); a blocking dial (caller's grpc.WithBlock) of an ID whose listener was closed mid-negotiation returns (fact dialFailsFast; gone_peer_dial_returns, no_fail_fast_witness; cell C09.gone-peer). Sixth round: the streamers' send channel is unbuffered (GrpcBroker.StreamerParams; send_after_stream_end_returns, buffered_send_witness), C09.after-peer-gone (twelve Accepts after the peer's broker stream ended), the net/rpc timer-arm fact as an obligation.",
+    "level_text": "Lean theorems over the MuxBroker transition system for ALL finite histories (unmatched dials, repeated dials to one id, accept timeouts, accepts at the expiry instant, any interleaving and timer order): the mutex is never held across a blocking operation (no_lock_wedge), no stream is ever leaked \u2014 each is in transit, delivered, closed, or parked with a live timeoutWait that will close it (no_stream_leaks), every waiting goroutine's next step is enabled once its timer is due (progress); witness theorems show each of the three structural facts is necessary (the former defects D5, D5b, D5c). Facts re-extracted each run; real brokers with real 5 s timers run the witness histories, seeded compositions and two hook-steered schedules, each followed by a fresh matched pair and a goroutine dump after Close. Also: Run survives streams that are closed before their id header (run_never_dies; fact headerErrorContinues; witness), and every waiting Accept / parked stream is due at most 5000 ms from now, its step enabled once due (due_within_window, holds_due_within_five_seconds). Fifth round: a dial abandoned after 0.6 s followed by a late accept while the knock is still parked (C09.mux kind=dial-abandoned-then-late-accept; knocksExpire now includes the dialler's full-window wait); a blocking dial (caller's grpc.WithBlock) of an ID whose listener was closed mid-negotiation returns (fact dialFailsFast; gone_peer_dial_returns, no_fail_fast_witness; cell C09.gone-peer). Sixth round: the streamers' send channel is unbuffered (GrpcBroker.StreamerParams; send_after_stream_end_returns, buffered_send_witness), C09.after-peer-gone (twelve Accepts after the peer's broker stream ended), the net/rpc timer-arm fact as an obligation. Seventh round: a listener closed between its knock's acknowledgement and the stream's arrival does not wedge the plugin's accept loop (GrpcMux.HandoffParams.releasedOnClose; closed_listener_releases_loop, plain_send_wedges_witness; kind=acceptor-closes-mid found and guards the repaired defect D18).",
     "level_note": "net/rpc MuxBroker only in this check (gRPC broker liveness under C07/C08). Bounded-response is stated as enabledness (progress) + the fairness assumption that enabled steps are eventually taken and time advances. yamux behaviour (Close unblocks the peer's read, session close ends AcceptStream) assumed.",
 }
